@@ -31,7 +31,7 @@ CLAIMED.update({
  'C09': dict(
     technique='inductive step: one symbolic PAM sweep from an arbitrary consistent state; squares abstracted (UF) with exact refinement; z3',
     text='One _kmedoids_pam_update sweep from an arbitrary state satisfying the clustering invariant, with arbitrary random draws or '
-         'explicit proposals, is executed symbolically; z3 proves cost non-increase, cluster count kept, centers are input frames, no RNG '
+         'explicit proposals, is executed symbolically; z3 proves cost non-increase (reported distances AND true distances to the labelled centers), cluster count kept, centers are input frames, no RNG '
          'use when proposals are given; hybrid cost <= k-centers cost end-to-end; fixed-seed reproducibility replayed on counterexamples.',
     note='Trusted: shim, z3, generator stub (NumPy generators deterministic in their seed is assumed). Real arithmetic. Squares are '
          'uninterpreted in proofs (sound), exact when models are extracted.',
